@@ -374,8 +374,14 @@ func TestPropDeep(t *testing.T) {
 	}
 	forms := [][3]string{{"[", "]", "1"}, {`{"k":`, "}", "1"}, {`[{"k":`, "}]", "[]"}, {"[\n", "\n]", "@a"}, {`{"k": `, "\n}", `"s" // {optional: true}`},
 		{"[", "", "1"}, {"", "]", "1"}, {"{@a: ", "}", "1"}, {"[1, ", "]", "2"}, {"[", ", 2]", "1"}, {`["a", `, "]", `"b"`}}
+	// far beyond any realistic document: the library is recursive over the nesting (AST, compiler, checker,
+	// example builder), so only a limit of its own keeps a 2 MB text of brackets from overflowing the stack
+	depths = append(depths, 10001, 1200000)
 	for _, d := range depths {
-		for _, f := range forms {
+		for fi, f := range forms {
+			if d > 100000 && fi > 0 { // (one form: the harness itself needs seconds for every further megabyte)
+				continue
+			}
 			idx++
 			if !ev.Mine(idx) {
 				continue
